@@ -545,11 +545,41 @@ class Rewriter:
             pos = m.start()
 
 
-def parse_map(line):
+def relax(pat):
+    """anchor regexes are written against rustfmt's current line breaks; make them indifferent to re-wrapping:
+    a literal space matches any white space, and a method-call dot may be preceded by white space / a line break"""
+    if re.search(r"\.\*|\.\+|\*\?|\+\?|\(\?s\)|\\s\*|\\s\+", pat):
+        return pat          # patterns with wildcards stay as written (relaxing them risks catastrophic backtracking)
+    out = []
+    i, n = 0, len(pat)
+    in_class = False
+    while i < n:
+        c = pat[i]
+        if c == "\\" and i + 1 < n:
+            nxt = pat[i + 1]
+            if nxt == "." and not in_class:
+                out.append("\\s*\\.")
+            else:
+                out.append(c + nxt)
+            i += 2
+            continue
+        if c == "[" and not in_class:
+            in_class = True
+        elif c == "]" and in_class:
+            in_class = False
+        if c == " " and not in_class:
+            out.append("\\s+")
+        else:
+            out.append(c)
+        i += 1
+    return "".join(out)
+
+
+def parse_map(line, relaxed=False):
     m = re.match(r"\s*/(.*)/\s*=>\s?(.*)$", line)
     if not m:
         raise ExtractError("bad map directive: " + line)
-    return re.compile(m.group(1)), m.group(2)
+    return re.compile(relax(m.group(1)) if relaxed else m.group(1)), m.group(2)
 
 
 def parse_opts(s):
@@ -854,9 +884,9 @@ class Unit:
                                "nth": int(pm.group(3)) if pm.group(3) else None})
                 cur = ("proof", len(proofs) - 1)
             elif s.startswith("//@sigsub"):
-                sigsubs.append(parse_map(s[len("//@sigsub"):]))
+                sigsubs.append(parse_map(s[len("//@sigsub"):], relaxed=True))
             elif s.startswith("//@sub"):
-                subs.append(parse_map(s[len("//@sub"):]))
+                subs.append(parse_map(s[len("//@sub"):], relaxed=True))
             elif s.startswith("//@"):
                 raise ExtractError("unknown directive in fn block: " + s)
             else:
@@ -1015,7 +1045,7 @@ class Unit:
             if pr["where"] == "start":
                 inserts.append((1, plines))
                 continue
-            ms = list(re.finditer(pr["re"], body, re.M))
+            ms = list(re.finditer(relax(pr["re"]), body, re.M))
             if pr.get("nth"):
                 if len(ms) < pr["nth"]:
                     raise ExtractError("anchor lost: //@proof /%s/ #%d in %s matched %d times" % (pr["re"], pr["nth"], name, len(ms)))
